@@ -220,7 +220,8 @@ pub fn run(a: &Args) {
     let v = Mutex::new(vec![]);
     let mut evals = 0u64;
     let mut samples = vec![];
-    let rounds = if a.thorough() { 400 } else { 40 };
+    let only_reentrant = a.get("parts") == Some("reentrant");
+    let rounds = if only_reentrant { 0 } else if a.thorough() { 400 } else { 40 };
     for r in 0..rounds {
         for n in [2usize, 4, 8, 16] {
             if n == 16 && !a.thorough() && r % 4 != 0 {
@@ -232,14 +233,14 @@ pub fn run(a: &Args) {
     }
     samples.push(format!("{{\"kind\": \"forced simultaneous misses on one key\", \"racers\": [2, 4, 8, 16], \"rounds\": {rounds}}}"));
     let mut ops_total = 0;
-    let mixed = if a.thorough() { 200 } else { 30 };
+    let mixed = if only_reentrant { 0 } else if a.thorough() { 200 } else { 30 };
     for _ in 0..mixed {
         let t = 2 + rng.below(7) as usize;
         ops_total += mixed_round(t, 200, &mut rng, &v);
         evals += 1;
     }
     samples.push(format!("{{\"kind\": \"mixed load/get_cached/get_or_insert/contains on 6 keys\", \"rounds\": {mixed}, \"operations\": {ops_total}}}"));
-    for n in if a.thorough() { vec![10_000usize, 100_000, 300_000] } else { vec![10_000usize, 50_000] } {
+    for n in if only_reentrant { vec![] } else if a.thorough() { vec![10_000usize, 100_000, 300_000] } else { vec![10_000usize, 50_000] } {
         held_handle(n, &v);
         evals += 1;
         samples.push(format!("{{\"kind\": \"handle held across insertions\", \"insertions\": {n}}}"));
